@@ -155,6 +155,47 @@ def run(ctx: Ctx):
                             break
                     if bad > 6:
                         break
+                # "every date-time that references a custom TZID": the same answers from values PARSED out of a calendar that
+                # carries the definition -- a single value, the items of a list, and BOTH ends of an explicit period (the
+                # end usually lies in another observance than the start).  Wall times are taken from probes that are far
+                # (> 1 day) from every probe with a different answer, so each wall time denotes one instant.
+                keys = sorted(int(k) for k in v["probes"])
+                stable = []
+                for t in keys:
+                    w = v["probes"][str(t)]
+                    if len(w["off"]) == 1 and all(v["probes"][str(u)]["off"] == w["off"] for u in keys if abs(u - t) <= 1500):
+                        stable.append(t)
+                is_cross = [o["name"] for o in v["z"]] == ["A", "B"]      # (cross-ordered onsets: C12-K3's family, probed above)
+                if len(stable) >= 2 and "\\" not in tzid_wire and not is_cross:
+                    pick = stable if len(stable) <= 6 else stable[:2] + stable[len(stable) // 2 - 1:len(stable) // 2 + 1] + stable[-2:]
+                    wl = {t: fmt_local(t + v["probes"][str(t)]["off"][0]) for t in pick}
+                    periods = ",".join(f"{wl[a]}/{wl[b]}" for a, b in zip(pick, pick[1:]))
+                    cal_text = ("BEGIN:VCALENDAR\r\nVERSION:2.0\r\nPRODID:verif\r\n" + text + "BEGIN:VEVENT\r\nUID:1\r\n"
+                                f"DTSTART;TZID={tzid_wire}:{wl[pick[0]]}\r\nDTEND;TZID={tzid_wire}:{wl[pick[1]]}\r\n"
+                                f"RDATE;VALUE=PERIOD;TZID={tzid_wire}:{periods}\r\nEXDATE;TZID={tzid_wire}:{','.join(wl[t] for t in pick)}\r\n"
+                                "END:VEVENT\r\nEND:VCALENDAR\r\n")
+                    try:
+                        pe = Calendar.from_ical(cal_text).walk("VEVENT")[0]
+                        rd = pe["RDATE"]
+                        got_vals = [("DTSTART", pick[0], pe["DTSTART"].dt), ("DTEND", pick[1], pe["DTEND"].dt)]
+                        got_vals += [("EXDATE", t, x.dt) for t, x in zip(pick, pe["EXDATE"].dts)]
+                        for (a, b), x in zip(zip(pick, pick[1:]), rd.dts):
+                            got_vals += [("RDATE period start", a, x.dt[0]), ("RDATE period end", b, x.dt[1])]
+                    except Exception as e:   # noqa: BLE001
+                        ctx.fail("P:C12:definition-accepted", {**case, "route": "parsed calendar"}, type(e).__name__ + ":" + str(e)[:100], None)
+                        got_vals = []
+                    for where, t, d in got_vals:
+                        want = v["probes"][str(t)]
+                        nprobe += 1
+                        try:
+                            got = {"off": int(d.utcoffset().total_seconds() // 60), "name": d.tzname(), "wall": d.strftime("%Y%m%dT%H%M%S")}
+                        except Exception as e:   # noqa: BLE001
+                            got = {"off": "EXC", "name": type(e).__name__, "wall": ""}
+                        pc = {**case, "t": t, "route": "parsed calendar", "where": where, "impl_equal": False}
+                        if got["off"] not in want["off"] or got["wall"] != wl[t]:
+                            ctx.fail("P:C12:utcoffset", pc, got, want)
+                        elif got["name"] not in want["name"]:
+                            ctx.fail("P:C12:tzname", pc, got, want)
     finally:
         tzp.use_default()
     ctx.evaluations += nprobe
